@@ -75,6 +75,75 @@ type taintRun struct {
 	writes  []wr
 	seen    map[string]bool
 	budget  int
+	escapes map[fieldKey]bool // struct fields into which memory of the variable was stored (it lives on in objects)
+	direct  map[ssa.Value]bool // in the function where the taint starts: values read straight out of the variable
+}
+
+// directlyFrom: the values of f that are read straight out of the seeds (address arithmetic, loads, conversions,
+// boxing) — not through a local copy, a call or a callee
+func directlyFrom(f *ssa.Function, seeds []ssa.Value) map[ssa.Value]bool {
+	d := map[ssa.Value]bool{}
+	for _, s := range seeds {
+		d[s] = true
+	}
+	for changed := true; changed; {
+		changed = false
+		add := func(v ssa.Value, from ssa.Value) {
+			if d[from] && !d[v] {
+				d[v] = true
+				changed = true
+			}
+		}
+		for _, b := range f.Blocks {
+			for _, in := range b.Instrs {
+				switch x := in.(type) {
+				case *ssa.FieldAddr:
+					add(x, x.X)
+				case *ssa.IndexAddr:
+					add(x, x.X)
+				case *ssa.Field:
+					add(x, x.X)
+				case *ssa.Index:
+					add(x, x.X)
+				case *ssa.UnOp:
+					if x.Op == token.MUL {
+						add(x, x.X)
+					}
+				case *ssa.ChangeType:
+					add(x, x.X)
+				case *ssa.ChangeInterface:
+					add(x, x.X)
+				case *ssa.MakeInterface:
+					add(x, x.X)
+				case *ssa.Convert:
+					add(x, x.X)
+				case *ssa.Slice:
+					add(x, x.X)
+				case *ssa.TypeAssert:
+					add(x, x.X)
+				case *ssa.Phi:
+					for _, e := range x.Edges {
+						add(x, e)
+					}
+				}
+			}
+		}
+	}
+	return d
+}
+
+// fieldKey names a struct field by the struct's type and the field's index (field-based, as in VTA)
+type fieldKey struct {
+	typ string
+	idx int
+}
+
+func fieldOf(fa *ssa.FieldAddr) (fieldKey, bool) {
+	pt, ok := fa.X.Type().Underlying().(*types.Pointer)
+	if !ok {
+		return fieldKey{}, false
+	}
+	return fieldKey{typeKey(pt.Elem()), fa.Field}, true
 }
 
 func (r *taintRun) markPtr(f *ssa.Function, v ssa.Value) {
@@ -370,6 +439,11 @@ func (r *taintRun) scan(f *ssa.Function, work *[]*ssa.Function) {
 		for _, in := range b.Instrs {
 			switch x := in.(type) {
 			case *ssa.Store:
+				if fa, ok := x.Addr.(*ssa.FieldAddr); ok && !r.ptr[x.Addr] && r.direct[x.Val] && mutablePointer(x.Val.Type()) {
+					if k, ok := fieldOf(fa); ok && r.escapes != nil {
+						r.escapes[k] = true
+					}
+				}
 				if r.ptr[x.Addr] {
 					k := "store"
 					switch x.Addr.(type) {
@@ -488,9 +562,41 @@ func (r *taintRun) scan(f *ssa.Function, work *[]*ssa.Function) {
 	}
 }
 
-// writesFrom: start a taint at `seeds` inside f0 and collect the writes it leads to (f0 and callees)
-func writesFrom(g *graph, f0 *ssa.Function, seeds []ssa.Value) []wr {
-	r := &taintRun{g: g, ptr: map[ssa.Value]bool{}, carrier: map[ssa.Value]map[string]types.Type{}, dirty: map[*ssa.Function]bool{}, seen: map[string]bool{}, budget: 400}
+// holderSeed: the address of an object's field that holds (a by-value copy of) memory of the variable: the field
+// itself belongs to the object, the pointers, slices and maps inside it belong to the variable
+type holderSeed struct {
+	v ssa.Value
+	t types.Type
+}
+
+// mutablePointer: a value through which memory can be written (a pointer, map, slice, channel, or an interface /
+// struct that may hold one); function values and plain data are not
+func mutablePointer(t types.Type) bool {
+	switch u := t.Underlying().(type) {
+	case *types.Pointer, *types.Map, *types.Slice, *types.Chan, *types.Interface:
+		return true
+	case *types.Struct:
+		for i := 0; i < u.NumFields(); i++ {
+			if mutablePointer(u.Field(i).Type()) {
+				return true
+			}
+		}
+	case *types.Array:
+		return mutablePointer(u.Elem())
+	}
+	return false
+}
+
+// writesFrom: start a taint at `seeds` inside f0 and collect the writes it leads to (f0 and callees); escapes
+// (if not nil) receives the struct fields into which memory of the variable was stored on the way
+func writesFrom(g *graph, f0 *ssa.Function, seeds []ssa.Value, escapes map[fieldKey]bool, holders ...holderSeed) []wr {
+	r := &taintRun{g: g, ptr: map[ssa.Value]bool{}, carrier: map[ssa.Value]map[string]types.Type{}, dirty: map[*ssa.Function]bool{}, seen: map[string]bool{}, budget: 400, escapes: escapes}
+	if escapes != nil {
+		r.direct = directlyFrom(f0, seeds)
+	}
+	for _, h := range holders {
+		r.carrier[h.v] = map[string]types.Type{typeKey(h.t): h.t}
+	}
 	for _, s := range seeds {
 		r.ptr[s] = true
 	}
@@ -585,6 +691,36 @@ func globals(facts *Facts, g *graph) {
 		return W
 	}
 
+	// every load of a struct field in the module, by field (for the second stage)
+	type fieldLoad struct {
+		fn   *ssa.Function
+		v    ssa.Value
+		addr bool // v is the address of the field (used for method calls on it / access to its parts), not a load
+	}
+	fieldLoads := map[fieldKey][]fieldLoad{}
+	for _, f := range modFns {
+		for _, b := range f.Blocks {
+			for _, in := range b.Instrs {
+				if fa, ok := in.(*ssa.FieldAddr); ok {
+					if k, ok := fieldOf(fa); ok {
+						if _, isStruct := fa.Type().Underlying().(*types.Pointer).Elem().Underlying().(*types.Struct); isStruct {
+							fieldLoads[k] = append(fieldLoads[k], fieldLoad{f, fa, true})
+						}
+					}
+					continue
+				}
+				u, ok := in.(*ssa.UnOp)
+				if !ok || u.Op != token.MUL {
+					continue
+				}
+				if fa, ok := u.X.(*ssa.FieldAddr); ok {
+					if k, ok := fieldOf(fa); ok {
+						fieldLoads[k] = append(fieldLoads[k], fieldLoad{f, u, false})
+					}
+				}
+			}
+		}
+	}
 	for _, p := range modPkgs {
 		sp := prog.Package(p.Types)
 		if sp == nil {
@@ -626,10 +762,9 @@ func globals(facts *Facts, g *graph) {
 					}
 				}
 			}
+			escapes := map[fieldKey]bool{}
 			for _, f := range modFns {
-				if isInitFn(f) {
-					continue
-				}
+				// (init functions and variable initialisers do not count as writers, but what they park in objects does)
 				var seeds []ssa.Value
 				if mentions(f, gl) {
 					seeds = append(seeds, gl)
@@ -655,9 +790,60 @@ func globals(facts *Facts, g *graph) {
 				if len(seeds) == 0 {
 					continue
 				}
-				for _, w := range writesFrom(g, f, seeds) {
+				ws := writesFrom(g, f, seeds, escapes)
+				if isInitFn(f) {
+					continue
+				}
+				for _, w := range ws {
 					G.Writers = append(G.Writers, mkWriter(f, w))
 				}
+			}
+			// second stage: memory of the variable that was stored into a field of some object lives on there;
+			// whoever loads that field anywhere in the module holds it again (two rounds)
+			doneField := map[fieldKey]bool{}
+			for round := 0; round < 1 && len(escapes) > 0; round++ {
+				next := map[fieldKey]bool{}
+				var ks []fieldKey
+				for k := range escapes {
+					if !doneField[k] {
+						ks = append(ks, k)
+					}
+				}
+				sort.Slice(ks, func(i, j int) bool { return ks[i].typ+fmt.Sprint(ks[i].idx) < ks[j].typ+fmt.Sprint(ks[j].idx) })
+				for _, k := range ks {
+					doneField[k] = true
+					byFn := map[*ssa.Function][]ssa.Value{}
+					holdFn := map[*ssa.Function][]holderSeed{}
+					for _, ld := range fieldLoads[k] {
+						if ld.addr {
+							holdFn[ld.fn] = append(holdFn[ld.fn], holderSeed{ld.v, ld.v.Type().Underlying().(*types.Pointer).Elem()})
+						} else {
+							byFn[ld.fn] = append(byFn[ld.fn], ld.v)
+						}
+					}
+					var fs []*ssa.Function
+					seenFn := map[*ssa.Function]bool{}
+					for f := range byFn {
+						fs = append(fs, f)
+						seenFn[f] = true
+					}
+					for f := range holdFn {
+						if !seenFn[f] {
+							fs = append(fs, f)
+						}
+					}
+					sort.Slice(fs, func(i, j int) bool { return fs[i].String() < fs[j].String() })
+					for _, f := range fs {
+						if isInitFn(f) {
+							continue
+						}
+						for _, w := range writesFrom(g, f, byFn[f], nil, holdFn[f]...) {
+							w.kind += " (reached through the field " + shortName(k.typ) + "#" + fmt.Sprint(k.idx) + ")"
+							G.Writers = append(G.Writers, mkWriter(f, w))
+						}
+					}
+				}
+				escapes = next
 			}
 			facts.Globals = append(facts.Globals, G)
 		}
